@@ -80,9 +80,10 @@ class Bridge:
         if type(p) is P.Mu:
             return {'t': 'mu', 'v': p.var, 'p': self.to_json(p.subpattern)}
         if type(p) is P.MetaVar:
-            return {'t': 'mv', 'i': p.name, 'ef': [v.name for v in p.e_fresh], 'sf': [v.name for v in p.s_fresh],
-                    'pos': [v.name for v in p.positive], 'neg': [v.name for v in p.negative],
-                    'hol': [v.name for v in p.app_ctx_holes]}
+            nm = lambda v: getattr(v, 'name', v)      # (the deserialiser builds constraint tuples of plain ints)
+            return {'t': 'mv', 'i': p.name, 'ef': [nm(v) for v in p.e_fresh], 'sf': [nm(v) for v in p.s_fresh],
+                    'pos': [nm(v) for v in p.positive], 'neg': [nm(v) for v in p.negative],
+                    'hol': [nm(v) for v in p.app_ctx_holes]}
         if type(p) is P.ESubst:
             return {'t': 'es', 'p': self.to_json(p.pattern), 'v': p.var.name, 'g': self.to_json(p.plug)}
         if type(p) is P.SSubst:
